@@ -130,7 +130,12 @@ SIGS = [b'\\x04\\x00\\x00\\x00\\x00\\x00\\x00\\x00\\xff\\xff\\xff\\xff\\x00\\x00
         b'~Version\\n VERS. 2.0 : CWLS\\n WRAP. NO :\\n', b'# c\\n\\n~V\\nVERS. 1.2: x\\n', b'~V\\n VERS. 3.0 : x\\n',
         b'=LIS VERIFICATION by PETROLOG rev 1234', b'UTIM\\nUTIM A\\n1 2\\n', b'\\x00\\x3e\\x00\\x00\\x80\\x00' + b'FILE  .001' + b' ' * 46,
         b'\\x00' * 8 + b'\\x4a\\x00\\x00\\x00' + b'\\x00\\x3e\\x00\\x00\\x80\\x00' + b'FILE  .001' + b' ' * 46,
-        bytes([0xC3, 0xF0, 0xF1]) + bytes([0x40]) * 77, b'']
+        bytes([0xC3, 0xF0, 0xF1]) + bytes([0x40]) * 77, b'',
+        # witnesses of the repaired defects (SEGY card number, LIS indexer exceptions through _lis)
+        bytes([0xC3, 0xC1, 0xC1]) + bytes([0x40]) * 3197, bytes.fromhex('0005000080'), bytes.fromhex('000c000040000200420000ff'),
+        bytes.fromhex('000d00004000040142ff090441'),
+        bytes.fromhex('00310000400000004280202020202020202020202020202020202046454554000000000000000400000000440000000000'),
+        bytes.fromhex('0031000040000000428020202020202020202020202020202020204645455400000000000000040000000144000000000000000600000000')]
 
 class NFile(io.BytesIO):
     @property
